@@ -223,6 +223,14 @@ func (r *Reader) parseEntryData(data []byte) (*Entry, error) {
 		// Read value
 		value = make([]byte, valueLen)
 		copy(value, data[offset:offset+int(valueLen)])
+		offset += int(valueLen)
+	}
+
+	// The writer encodes an entry into exactly the bytes of its record(s).
+	// Bytes left over mean that these records were not written as this entry
+	// (a fragment taken for a whole record, fragments of two entries joined)
+	if offset != len(data) {
+		return nil, fmt.Errorf("%w: %d bytes behind the end of the entry", ErrCorruptRecord, len(data)-offset)
 	}
 
 	return &Entry{
